@@ -638,7 +638,8 @@ class Tally(StatisticsInterface):
             or NaN  when too few observations were registered.
         """
         n = float(self._n)
-        if n > 1:
+        # the skewness is undefined (NaN) when the variance is zero
+        if n > 1 and self.variance() > 0:
             skew_biased = (self._m3 / n) / self.variance() ** 1.5 
             if biased:
                 return skew_biased
@@ -684,6 +685,9 @@ class Tally(StatisticsInterface):
             NaN  when too few observations were registered.
         """
         n = self._n
+        # the kurtosis is undefined (NaN) when the variance is zero
+        if not self._m2 > 0:
+            return math.nan
         if biased:
             if n > 2:
                 d2 = (self._m2 / n)
